@@ -160,6 +160,42 @@ var idCodecs = []idCodec{
 		func(src interface{}) ([]byte, error) { var v lorawan.AES128Key; e := v.Scan(src); return v[:], e }},
 }
 
+// c11Into decodes text / binary / database input into a receiver that already
+// holds the value init, and returns what the receiver holds afterwards.
+func c11Into(name string, init []byte, how int, in []byte) ([]byte, error) {
+	dec := func(ut func([]byte) error, ub func([]byte) error, sc func(interface{}) error) error {
+		switch how {
+		case 0:
+			return ut(in)
+		case 1:
+			return ub(in)
+		}
+		return sc(in)
+	}
+	switch name {
+	case "EUI64":
+		var v lorawan.EUI64
+		copy(v[:], init)
+		e := dec(v.UnmarshalText, v.UnmarshalBinary, v.Scan)
+		return v[:], e
+	case "DevAddr":
+		var v lorawan.DevAddr
+		copy(v[:], init)
+		e := dec(v.UnmarshalText, v.UnmarshalBinary, v.Scan)
+		return v[:], e
+	case "NetID":
+		var v lorawan.NetID
+		copy(v[:], init)
+		e := dec(v.UnmarshalText, v.UnmarshalBinary, v.Scan)
+		return v[:], e
+	default:
+		var v lorawan.AES128Key
+		copy(v[:], init)
+		e := dec(v.UnmarshalText, v.UnmarshalBinary, v.Scan)
+		return v[:], e
+	}
+}
+
 func c11Representations(c *core.Ctx, r *core.RNG, ic idCodec) {
 	b := r.Bytes(ic.size)
 	switch r.Intn(8) {
@@ -271,6 +307,24 @@ func c11Representations(c *core.Ctx, r *core.RNG, ic idCodec) {
 		if err == nil {
 			// "0X.." is not a documented prefix; accept only if it decodes to the same value, anything else must be rejected
 			bad("text-malformed-accepted", "UnmarshalText(%q) accepted as %x", s, got)
+		}
+	}
+	// an identifier that already holds a value is not damaged by an input that is rejected
+	// (one nibble too long, a bad digit late in the string, a wrong-length byte string)
+	hx := hex.EncodeToString(r.Bytes(ic.size))
+	for how, ins := range [][][]byte{
+		{[]byte(hx + "a"), []byte("0x" + hx + "a"), []byte(hx[:len(hx)-1] + "z"), []byte(hx[:len(hx)-2]), []byte(hx + "abcd")},
+		{r.Bytes(ic.size + 1), r.Bytes(ic.size - 1), r.Bytes(2 * ic.size)},
+		{r.Bytes(ic.size + 1), r.Bytes(ic.size - 1), []byte(hx)},
+	} {
+		for _, in := range ins {
+			c.Eval(1)
+			after, err := c11Into(ic.name, b, how, append([]byte{}, in...))
+			if err == nil {
+				bad("malformed-accepted-into-used-value", "input %q (route %d) accepted", in, how)
+			} else if !bytes.Equal(after, b) {
+				bad(fmt.Sprintf("rejected-input-changed-receiver|route=%d", how), "input %q was rejected (%v) but the receiver changed from %x to %x", in, err, b, after)
+			}
 		}
 	}
 	for _, src := range []interface{}{nil, hex.EncodeToString(b), 42, [4]byte{}} {
